@@ -57,6 +57,46 @@ def fields_of(repo, c):
 # --------------------------------------------------------------------------- P-PROPAGATE / P-DECL
 
 
+def buffer_rule(repo, res, RULE="D-BUFFER"):
+    """MPRenderer.clear, evaluated with and without keep_static_artists: what one frame has put into the per-frame
+    buffers (obstacle patches, dynamic artists / collections / labels, traffic signs) is gone afterwards in both cases —
+    a renderer reused for the next time window otherwise draws the shapes of the earlier steps again; the static
+    buffers are kept exactly when asked."""
+    from ..strdom import Ev, Lenient, ListV, Obj, Str, Undecided, _Raise, show
+
+    r = repo.cls(MP, "MPRenderer")
+    fn = r.methods.get("clear")
+    if fn is None:
+        raise AnalysisError("MPRenderer.clear missing")
+    PER_FRAME = ("obstacle_patches", "dynamic_artists", "dynamic_collections", "dynamic_labels", "traffic_signs")  # confirmed by reading: filled by the draw_* methods of one frame
+    STATIC = ("static_artists", "static_collections")
+    for keep in (True, False):
+        fields = {k: ListV([Str.lit("left over from the last frame")]) for k in PER_FRAME + STATIC}
+        fields["traffic_sign_artists"] = ListV([Str.lit("left over from the last frame")])
+        fields["draw_params"] = Lenient("draw_params")
+        me = Obj(r, fields, label="renderer")
+        ev = Ev(repo)
+        ev.pure_modules = {"np", "numpy", "math"}
+        bad = []
+        try:
+            ev.call_fn(ev.bind(fn, r, me), [], {"keep_static_artists": keep}, fn)
+            for k in PER_FRAME:
+                v = me.fields.get(k)
+                if not (isinstance(v, ListV) and not v.items):
+                    bad.append("%s still holds %s" % (k, show(v)))
+            for k in STATIC:
+                v = me.fields.get(k)
+                if keep and not (isinstance(v, ListV) and v.items):
+                    bad.append("%s was emptied although the static artists were to be kept" % k)
+                if not keep and not (isinstance(v, ListV) and not v.items):
+                    bad.append("%s still holds %s" % (k, show(v)))
+        except _Raise as x:
+            bad.append("raises %s" % x.what)
+        except Undecided as x:
+            raise AnalysisError("MPRenderer.clear [keep_static_artists=%s]: %s" % (keep, x))
+        res.check(RULE, "MPRenderer.clear [keep_static_artists=%s]: the per-frame buffers are empty afterwards" % keep, not bad, r.mod, fn, "MPRenderer.clear [keep_static_artists=%s]: %s" % (keep, "; ".join(bad[:3])), "what an earlier frame drew stays in the renderer: the next time window shows the occupancies of earlier time steps as well", qualname="MPRenderer.clear")
+
+
 def propagate_cases(repo, res, m, base, sa):
     """BaseParam.__setattr__, evaluated on a tree of parameter groups
 
@@ -661,6 +701,8 @@ def run(repo, res, tier):
     res.rule("D-GROUP", "draw methods select the parameter group of their kind", 30)
     res.rule("D-NULLSAFE", "possibly absent occupancies / states are dereferenced under a test", 6)
     res.rule("D-TIME", "drawn occupancies are those at the selected time steps", 10)
+    res.rule("D-BUFFER", "clear() empties what one frame has drawn, whether or not the static artists are kept (evaluated)", 2)
+    buffer_rule(repo, res)
     res.rule("D-PATCH", "shape primitives hand the geometry to matplotlib unchanged", 3)
     res.rule("D-LANELETS", "lanelet drawing loop and id filter", 4)
     classes = propagate(repo, res)
